@@ -19,12 +19,13 @@
 #define NS (CS_MAXP * CS_MAXP)
 
 enum { F_TRL, F_UTHROUGH, F_TRLM, F_UREFLECT1, F_UREFLECT2, F_CORR,
-    F_PARTIAL16, F_TRLX, F_RECT, F_CORRV, F_HUB, F_NFAM };
+    F_PARTIAL16, F_TRLX, F_RECT, F_CORRV, F_HUB, F_KITLIB, F_NFAM };
 static const char *fname[F_NFAM] = { "TRL(analytic)", "unknown-through",
     "TRL+match(LM)", "unknown-reflect-1port", "unknown-reflects-2port",
     "correlated-repeat", "unknown+single-reflect-16term",
     "TRL-with-mismatched-line", "unknown-line-rectangular",
-    "correlated-with-known-vector", "correlated-with-unknown-hub" };
+    "correlated-with-known-vector", "correlated-with-unknown-hub",
+    "unknown-reflect-in-a-kit-library" };
 
 static const vnacal_type_t types[8] = {
     VNACAL_T8, VNACAL_U8, VNACAL_TE10, VNACAL_UE10,
@@ -36,6 +37,7 @@ static int ntypes_of(int fam)
     case F_TRL: return 4;		/* T8 U8 TE10 UE10 */
     case F_TRLX: return 4;
     case F_HUB: return 4;
+    case F_KITLIB: return 4;
     case F_PARTIAL16: return 2;		/* T16 U16 */
     default: return 8;
     }
@@ -357,6 +359,36 @@ static int build(cs_scenario *sc, int fam, vnacal_type_t type, int net,
 	unk[(*nunk)++] = r2;
 	unk[(*nunk)++] = l1;
 	unk[(*nunk)++] = l2;
+	break;
+    }
+    case F_KITLIB: {
+	/*
+	 * the unknown reflect is an early entry of a cal-kit library of 20
+	 * parameters; the characterised through that is measured first has
+	 * handles 16 above it.  The reflect is measured on port 1, then a
+	 * line of known mismatch and unknown transmission (which brings the
+	 * calibration's own parameter table to its first growth), then the
+	 * same reflect on port 2.  Through, reflect, line: the set is
+	 * determined because it is one reflect, not two.
+	 */
+	int R = par_unknown(sc, Rtrue, 0.01 * I, guess);
+	for (int k = 0; k < 15; ++k)
+	    (void)par_scalar(sc, 0.3 * cexp(I * (0.7 * k + 0.2)));
+	int t11 = par_scalar(sc, 0.04 + 0.03 * I);
+	int t12 = par_scalar(sc, 0.96 * cexp(-0.12 * I));
+	int t21 = par_scalar(sc, 0.95 * cexp(-0.11 * I));
+	int t22 = par_scalar(sc, -0.03 + 0.05 * I);
+	int lr1 = par_scalar(sc, 0.12 - 0.07 * I);
+	int lr2 = par_scalar(sc, -0.09 + 0.04 * I);
+	int L = par_unknown(sc, Ltrue, -0.05 * I * Ltrue, guess);
+	int tt[4] = { t11, t12, t21, t22 };
+	int ll[4] = { lr1, L, L, lr2 };
+	std_push(sc, CSE_LINE, 2, 1, 2, tt);
+	std_push(sc, CSE_SINGLE, 1, 1, 0, &R);
+	std_push(sc, CSE_LINE, 2, 1, 2, ll);
+	std_push(sc, CSE_SINGLE, 1, 2, 0, &R);
+	unk[(*nunk)++] = R;
+	unk[(*nunk)++] = L;
 	break;
     }
     case F_PARTIAL16: {
